@@ -3,7 +3,7 @@
 # Confirms a sub-agent's seeded change in a scratch worktree (suite passes with it; the demo fails
 # with it and passes without it) and files it under /verif/seeded/<ID>-<n>/.
 id=$1; n=$2; needs=$3
-src=/tmp/seed/$id/OUT
+src=${SRC_DIR:-/tmp/seed/$id/OUT}   # SRC_DIR/PROP: for changes not filed under one property id
 export GOFLAGS=-mod=mod GOPROXY=off GOSUMDB=off GOTOOLCHAIN=local
 patch=$src/patch$n.diff; demo=$src/demo${n}_test.go
 [ -f "$patch" ] && [ -f "$demo" ] || { echo "missing files"; exit 3; }
@@ -13,17 +13,17 @@ wt=$(mktemp -d /tmp/keepwt.XXXXXX); rmdir "$wt"
 git -C /repo worktree add --detach "$wt" HEAD >/dev/null 2>&1 || exit 3
 trap 'git -C /repo worktree remove --force "$wt" >/dev/null 2>&1; rm -rf "$wt"' EXIT
 cp "$demo" "$wt/$place/zz_seed_demo_test.go"
-clean=$(cd "$wt" && go test -vet=off -count=1 -run 'TestSeedDemo' ./$place 2>&1); crc=$?
+clean=$(cd "$wt" && go test -vet=off -count=1 -run 'TestSeedDemo|TestAdvDemo' ./$place 2>&1); crc=$?
 git -C "$wt" apply "$patch" || { echo "patch does not apply"; exit 3; }
 (cd "$wt" && go build ./... && go vet ./... >/dev/null 2>&1) || { echo "build/vet fails"; exit 3; }
-mut=$(cd "$wt" && go test -vet=off -count=1 -run 'TestSeedDemo' ./$place 2>&1); mrc=$?
+mut=$(cd "$wt" && go test -vet=off -count=1 -run 'TestSeedDemo|TestAdvDemo' ./$place 2>&1); mrc=$?
 rm "$wt/$place/zz_seed_demo_test.go"
 suite=$(cd "$wt" && go test -vet=off -count=1 ./... 2>&1); src_rc=$?
 echo "demo on clean HEAD rc=$crc; demo with patch rc=$mrc; suite with patch rc=$src_rc"
 if [ $crc -ne 0 ] || [ $mrc -eq 0 ] || [ $src_rc -ne 0 ]; then echo "NOT CONFIRMED"; echo "$clean" | tail -5; echo "$mut" | tail -5; echo "$suite" | grep -v '^ok' | tail; exit 4; fi
 dst=/verif/seeded/$id-$n; mkdir -p "$dst"
 cp "$patch" "$dst/patch.diff"; cp "$demo" "$dst/demo_test.go"; [ -f $src/notes$n.md ] && cp $src/notes$n.md "$dst/notes.md"
-python3 - "$id" "$n" "$needs" "$place" "$(git -C /repo rev-parse --short HEAD)" > "$dst/meta.json" <<'PY'
+python3 - "${PROP:-$id}" "$n" "$needs" "$place" "$(git -C /repo rev-parse --short HEAD)" > "$dst/meta.json" <<'PY'
 import json,sys
 id,n,needs,place,head=sys.argv[1:6]
 print(json.dumps({
